@@ -98,6 +98,16 @@ check("C08", "tool-sim", "exploration",
       "Collisions are forced on the checksum; equal compressed sizes come from the workload. Schedules are sampled.",
       "deterministic simulation: fault injection on the checksum function x seeded schedule search", "DESIGN.md 5/C08")
 
+check("C04", "tool-sim", "exploration",
+      "Archives from an independent emitter (v7, ustar prefix split, GNU long name/link + base-256, PAX path/linkpath/uid/gid/mtime/size, "
+      "SCHILY and LIBARCHIVE xattrs, GNU sparse old/0.0/0.1/1.0, hard links, negative and >2^33 mtimes, './' and '/' prefixes; emitter "
+      "validated against GNU tar and Python tarfile) are converted by tar2sqfs under stdin chunking, short I/O, EINTR and seeded schedules; "
+      "the decoded image must equal the archive model's expected tree. sqfs2tar output (short writes) is parsed by Python tarfile and "
+      "extracted by GNU tar and must equal the image tree; img->tar->img->tar->img must be a byte-exact fixpoint. Two known findings "
+      "(xattr order within a set reversed per round trip) are keyed by experiment.",
+      "Archive shapes are sampled by the generator; DST contributes chunking, short I/O, schedules. GNU tar / Python tarfile are trusted readers.",
+      "deterministic simulation: seeded I/O chunking + schedule search with independent archive model and readers as oracles", "DESIGN.md 5/C04")
+
 PENDING = ["C01","C02","C03","C04","C05","C06","C07","C08","C10","C11","C12","C13","C14","C15","C19"]
 NA_REASONS = {
  "C16": "pure relation between two text transducers (describe printer, pack-file tokenizer); no schedule, clock, fault, crash point or history in the statement - deciding it is input enumeration, which deterministic simulation does not do (DESIGN.md section 0)",
@@ -121,7 +131,7 @@ def main():
             "add_only": True,
         },
         "engines": [
-            {"name": "tool-sim", "path": "simos/ + py/pipelines.py", "serves_properties": ["C01", "C02", "C03", "C08", "C11", "C12", "C13", "C14"], "kind_free_text": "each tool's real sources linked with simos under --wrap; one process per simulated run"},
+            {"name": "tool-sim", "path": "simos/ + py/pipelines.py", "serves_properties": ["C01", "C02", "C03", "C04", "C08", "C11", "C12", "C13", "C14"], "kind_free_text": "each tool's real sources linked with simos under --wrap; one process per simulated run"},
             {"name": "pool-sim", "path": "scn/pool.c", "serves_properties": ["C09"], "kind_free_text": "real threadpool.c under the simos scheduler, many runs per process"},
         ],
         "checks": [CHECKS[k] for k in sorted(CHECKS)],
